@@ -186,6 +186,22 @@ func c10LabelsTotal(w *World, r *Report) {
 			}
 		}
 	}
+	// maps.Copy(dst, src) copies every entry by definition
+	for _, c := range callInstrs(fn) {
+		if f, _ := calleeOf(c.Common()); f != nil && fnPkgPath(f) == "maps" && genericName(f) == "Copy" && len(c.Common().Args) == 2 {
+			if p, isP := resolveToParam(unwrapIface(c.Common().Args[1])).(*ssa.Parameter); isP && p.Parent() == fn {
+				g0 := FullGraph(fn)
+				all := true
+				for _, rp := range g0.classifyReturns() {
+					if ex, _ := g0.PathExists(entryPos(fn), posOf(rp.Ret), avoidInstrs(c)); ex {
+						all = false
+					}
+				}
+				r.Check(all, "C10/LABELS", "fromMap/copies-every-entry", w.Pos(fn.Pos()), "every entry of the given map is stored (maps.Copy)", "the copy of the given label map can be skipped")
+				return
+			}
+		}
+	}
 	loops := mapLoops(fn)
 	if len(loops) != 1 || len(writes) == 0 {
 		r.Bad("C10/LABELS", "fromMap/copies-every-entry", w.Pos(fn.Pos()), "fromMap is no longer a plain copy loop over its argument")
